@@ -26,7 +26,9 @@ var htmlTags = []string{"p", "div", "span", "a", "b", "i", "ul", "li", "table", 
 	"template", "script", "style", "textarea", "title", "br", "img", "input", "hr", "svg", "math", "foreignObject", "desc", "html", "head", "body",
 	"form", "h1", "nobr", "tbody", "x:y", "svg:rect", "frameset", "noscript", "button", "dd", "mi", "annotation-xml"}
 var htmlAttrs = []string{"id", "class", "xmlns", "xmlns:x", "x:y", "xlink:href", "xml:lang", "xmlns:xlink", "href", "id", "a:b", "definitionurl", "encoding", "xmlnsfoo", "xmlns-x", "xmlns_id", "xml", "xmlnsx:y"}
-var htmlTexts = []string{"text", " ", "x < y", "&amp;", "&lt;b&gt;", "é", "\n", "a b", "]]>", "&#x41;"}
+var htmlTexts = []string{"text", " ", "x < y", "&amp;", "&lt;b&gt;", "é", "\n", "a b", "]]>", "&#x41;",
+	// carriage returns: literal ones are normalised by the tokenizer, referenced ones are data
+	"a&#13;\nb", "&#xD;&#10;", "a&#13;b", "\r\n", "a\rb", "&#13;", "&#0;", "\x00", "&nbsp;&copy", "&notit;", "&amp", "\t", "\f", "&#128;", "&#x110000;", "𝄞", "\xff"}
 
 func genSoup(t *rapid.T) string {
 	var sb strings.Builder
